@@ -27,10 +27,24 @@ class Headers:
         self.raw = {}      # name -> raw text
         self.where = {}    # name -> header file
         self.text = {}
+        inc = os.path.join(src, "include")
+        # the headers a program sees: xraylib.h and whatever it includes from include/, recursively, in inclusion order (files that merely
+        # sit in the directory, such as the historical lines_old.h, are not part of the API); the fixed list is the fallback for the shipped names
+        order, seen = [], set()
+
+        def follow(f):
+            p = os.path.join(inc, f)
+            if f in seen or not os.path.exists(p):
+                return
+            seen.add(f)
+            order.append(f)
+            for m in re.finditer(r'^[ \t]*#[ \t]*include[ \t]*"([^"]+)"', strip_comments(open(p, encoding="utf-8", errors="replace").read()), re.M):
+                follow(os.path.basename(m.group(1)))
+        follow("xraylib.h")
         for f in self.FILES:
-            p = os.path.join(src, "include", f)
-            if not os.path.exists(p):
-                continue
+            follow(f)
+        for f in order:
+            p = os.path.join(inc, f)
             t = open(p, encoding="utf-8", errors="replace").read()
             self.text[f] = t
             for m in _DEF.finditer(strip_comments(t)):
@@ -71,11 +85,20 @@ class Headers:
             return None
 
     def family(self, suffix, header=None):
-        """name -> int for every integer macro ending in suffix (aliases included)."""
+        """name -> int for every integer macro ending in suffix.  header=None: all of them, aliases included.  With a header name (kept as a hint of
+        where the family lives in the shipped layout) only the *primary* macros are returned - those defined by an integer literal rather than by
+        reference to another macro, and for lines the negative ones (the non-negative literals are the group macros KA/KB/LA/LB).  The selection is by
+        what a definition says, not by the file it is in, so that moving macros between headers changes nothing."""
         out = {}
         for n, v in self.val.items():
-            if n.endswith(suffix) and isinstance(v, int) and (header is None or self.where[n] == header):
-                out[n] = v
+            if not (n.endswith(suffix) and isinstance(v, int)):
+                continue
+            if header is not None:
+                if not re.fullmatch(r"\(?\s*-?\s*[0-9]+\s*\)?", self.raw[n]):
+                    continue
+                if suffix == "_LINE" and v >= 0:
+                    continue
+            out[n] = v
         return out
 
     def _protos(self):
